@@ -405,6 +405,21 @@ func c14BuildSystematic() {
 		sb.WriteString("endsolid big\n")
 		add("sys-ascii-big-bad-number", []byte(sb.String()))
 	}
+	// consistent binary files (size = 84 + 50 * count) whose 80 header bytes are unusual: blank in several ways, starting with
+	// "solid", all high bytes, a complete ASCII first line
+	for _, hdr := range [][]byte{bytes.Repeat([]byte(" "), 80), append(bytes.Repeat([]byte(" "), 79), '\n'), bytes.Repeat([]byte("\t"), 80), bytes.Repeat([]byte("\n"), 80),
+		bytes.Repeat([]byte("\r\n"), 40), append([]byte("solid"), bytes.Repeat([]byte(" "), 75)...), append([]byte("solid binary\n"), bytes.Repeat([]byte{0}, 67)...),
+		bytes.Repeat([]byte{0xff}, 80), bytes.Repeat([]byte{0}, 80), append([]byte(" solid x\nfacet normal 0 0 1\n"), bytes.Repeat([]byte(" "), 52)...)} {
+		for _, n := range []int{0, 1, 3} {
+			b := make([]byte, 84+50*n)
+			copy(b, hdr[:80])
+			binary.LittleEndian.PutUint32(b[80:], uint32(n))
+			for i := 84; i < len(b)-2; i += 4 {
+				binary.LittleEndian.PutUint32(b[i:], math.Float32bits(float32(i%17)-3))
+			}
+			add("sys-bin-unusual-header", b)
+		}
+	}
 	// valid binary files whose record count exactly fills k blocks of 2^j bytes (floor(2^j/50) records), and their neighbours
 	for _, n := range []int{81, 163, 164, 327, 655, 1309, 1310, 1311, 2620, 3930} {
 		b := make([]byte, 84+50*n)
